@@ -361,6 +361,23 @@ func c33Run(t lib.TB, test string, c c33Case) (nontrivial bool) {
 			setReply(f.peerBytes(s))
 			guard("refreshPeerInfo", func() { f.p.refreshPeerInfo([]peer.ID{f.remote}) })
 			f.p.SubConfig.VerLimit = ""
+			// ... and every reader of what the reply left in the PeerInfoManager, as the ticker goroutines, the statistics
+			// stream, the block download (PeerHeight) and the blockchain's peer-list request use it
+			guard("PeerInfoManager readers (FetchAll / Fetch / PeerHeight / PeerMaxHeight)", func() {
+				f.p.PeerInfoManager.FetchAll()
+				f.p.PeerInfoManager.Fetch(f.remote)
+				f.p.PeerInfoManager.PeerHeight(f.remote)
+				f.p.PeerInfoManager.PeerMaxHeight()
+			})
+			for _, h := range []int64{0, 512, 2000, 1 << 41, 1<<63 - 1} {
+				guard("checkOutBound (ticker goroutine)", func() { f.p.checkOutBound(h) })
+			}
+			serve(statisticalInfo, nil)
+			pm := f.cli.NewMessage("p2p", types.EventPeerInfo, nil)
+			guard("handleEventPeerInfo behind EventHandlerWithRecover", func() { protocol.EventHandlerWithRecover(f.p.handleEventPeerInfo)(pm) })
+			if _, err := f.cli.WaitTimeout(pm, 60*time.Second); err != nil {
+				lib.Inconclusive("no reply to EventPeerInfo: %v", err)
+			}
 			if s.Shape == "ok" || s.Shape == "nilMessage" || s.Shape == "otherChannel" {
 				nontrivial = true
 				lib.Class("peer_info_reply_decoded")
